@@ -27,10 +27,15 @@ STMT = {
 def render(lang: str, toks: list[str], fi: int, variant: int) -> tuple[str, list[str]]:
     """Source text and its abstract token list (one token per source line, incl. wrapper lines)."""
     lines, abstract = [], []
-    # module-level statements; first and last line are unique per file (no shared braces / returns)
-    ind = ""
+    # module-level statements; first and last line are unique per file (no shared braces / returns).
+    # Every third file holds its statements one block deeper (the same run at another indentation is the same run).
+    deeper = (fi + variant) % 3 == 1
+    ind = "    " if deeper else ""
     lines.append(f"start_{fi} = begin_{fi}()" if lang == "python" else f"const start{fi} = begin{fi}();")
     abstract.append(f"H{fi}")
+    if deeper:
+        lines.append(f"if start_{fi}:" if lang == "python" else f"if (start{fi}) {{")
+        abstract.append(f"W{fi}")
     for i, t in enumerate(toks):
         text = STMT[lang][t]
         if t == "BL" and (i + variant) % 2:
@@ -41,11 +46,14 @@ def render(lang: str, toks: list[str], fi: int, variant: int) -> tuple[str, list
                 text = text.replace(" = ", "  =  ")
             if (i + variant) % 5 == 0 and t in ("A", "B", "C"):
                 text = text + ("  # trailing remark" if lang == "python" else "  // trailing remark")
-            lines.append(text)
+            lines.append(ind + text)
         else:
             lines.append("")
         abstract.append(t)
-    lines.append(f"finish_{fi}(start_{fi})" if lang == "python" else f"finish{fi}(start{fi});")
+    if deeper and lang != "python":
+        lines.append(f"}} else {{ finish{fi}(start{fi}); }}")
+    else:
+        lines.append(f"finish_{fi}(start_{fi})" if lang == "python" else f"finish{fi}(start{fi});")
     abstract.append(f"T{fi}")
     return "\n".join(lines) + "\n", abstract
 
